@@ -326,6 +326,11 @@ fn find_livelocks(sc: &Scenario, r: &mut ExploreResult) {
         if ev.is_deviation() {
             continue;
         }
+        // the allocator's new-worker query reads the state and leaves it as it is: its self-loop is
+        // an observer, not a step of the system
+        if matches!(ev, Ev::WorkerQuery) && a == b {
+            continue;
+        }
         let ia = id(*a, &mut keys);
         let ib = id(*b, &mut keys);
         let n = keys.len();
